@@ -8,16 +8,20 @@ From Coq Require Import List ZArith Permutation.
 From Orda.Model Require Import Base Time Ops Counter Map.
 From Orda.Proofs Require Import OrderFacts Permute Sys CounterFacts MapFacts MapConv SnapshotFacts.
 
-(* Counter: ANY two orders of the same operations give the same value (no readiness needed) *)
+(* Counter: ANY two orders of the same operations give the same value (no readiness needed).
+   [no_snap]: the operations exchanged between replicas; the snapshot operation a client creates with the
+   datatype is not one of them (the server stores the creator's as the first operation of the log and drops
+   a subscriber's), and executing one replaces the state instead of changing it. *)
 Theorem C01_counter :
-  forall l l' : list op, Permutation l l' ->
+  forall l l' : list op, no_snap l -> Permutation l l' ->
     fold_left c_exec_remote l c_init = fold_left c_exec_remote l' c_init.
 Proof. exact counter_permutation. Qed.
 Print Assumptions C01_counter.
 
 (* Map: in every reachable state of the replicated system, two replicas that have
    applied the same operations agree on every key (value or tombstone, with its
-   timestamp) and on Size *)
+   timestamp) and on Size.  [m_ready]: a remove is generated on an existing key, and the
+   snapshot operation (which replaces the state) is never generated or delivered here. *)
 Theorem C01_map :
   forall (author : op -> nat) (s : sys op) (r1 r2 : nat),
     reachable mstate op tkey m_oid author m_exec_remote m_ready m_init s ->
